@@ -497,17 +497,18 @@ inline int run_batch(Engine& e, const BatchOptions& o) {
     }
     double t_search = wall_now() - t0;
     if (!o.hash_out.empty()) { FILE* hf = fopen(o.hash_out.c_str(), "wb"); if (hf) { for (auto& kv : run_hashes) fprintf(hf, "%lld %llu\n", (long long)kv.first, (unsigned long long)kv.second); fclose(hf); } }
+    int early_machinery_fault = 0;
     // ---- classify crashes (re-run the seed in a child, stderr captured)
     for (int64_t i : crashed_idx) {
         uint64_t seed = mix64(o.seed, (uint64_t)i);
         Plan p = e.generate(seed, o.mode, o.tier);
         ChildResult r = run_in_child(e, p, 120);
-        if (r.cls.empty()) { fprintf(stderr, "MACHINERY: worker died on seed %llu but re-run is clean (non-deterministic crash)\n", (unsigned long long)seed); return 2; }
+        if (r.cls.empty()) { fprintf(stderr, "MACHINERY: worker died on seed %llu but re-run is clean (non-deterministic crash)\n", (unsigned long long)seed); early_machinery_fault = 1; continue; }
         viols.push_back(std::make_pair(seed, r.cls));
     }
     // ---- one representative per class; determinism gate, minimise, replay gate
     std::vector<Violation> out; std::set<std::string> seen_sig; std::map<std::string, int> per_class;
-    int machinery_fault = 0;
+    int machinery_fault = early_machinery_fault;
     std::sort(viols.begin(), viols.end());
     for (auto& sv : viols) {
         if (per_class[sv.second]++ >= 3) continue;            // up to 3 seeds per raw class (different signatures may hide behind one class)
